@@ -4,7 +4,7 @@ import PonyVerif.Model.KeyDb
   Line-protocol entry for the table + session model (C14).
   request : {"op":"run","schema":{..as C11..},
              "ops":[{"k":"sess","op":{..a C11 op: create / set / delete / read..}} | {"k":"fetch","cls":0,"pk":[1],"ids":[]}
-                    | {"k":"flush","ids":[3,4]} | {"k":"flushOne","o":0,"ids":[]} | {"k":"commit","ids":[]} | {"k":"rollback"} | {"k":"ext","pk":[7],"vals":[1,null]}]}
+                    | {"k":"flush","ids":[3,4]} | {"k":"flushOne","o":0,"ids":[]} | {"k":"commit","ids":[]} | {"k":"rollback"} | {"k":"ext","pk":[7],"vals":[1,null]} | {"k":"extUpdate","pk":[7],"a":0,"v":3} | {"k":"extDelete","pk":[7]}]}
   reply   : {"steps":[{"err":null|"TransactionIntegrityError"..,"committed":[[pk,[vals]]..],"txn":[..],"inTxn":bool,"keysOk":bool,
                        "objs":[..],"pk":[..],"ixs":[..],"queue":[..]}]}
 -/
@@ -27,7 +27,9 @@ def wopOfJson (j : Json) : Except String WOp := do
   | "rollback" => pure .rollback
   | "ext" =>
       let vals ← (← argArr j "vals").mapM C11.optIntOfJson
-      pure (.ext { pk := ← C11.intsOfJson (← j.getObjVal? "pk"), vals := fun a => (vals[a]?).join })
+      pure (.ext (.insert { pk := ← C11.intsOfJson (← j.getObjVal? "pk"), vals := fun a => (vals[a]?).join }))
+  | "extUpdate" => pure (.ext (.update (← C11.intsOfJson (← j.getObjVal? "pk")) (← argNat j "a") (← argOptInt j "v")))
+  | "extDelete" => pure (.ext (.delete (← C11.intsOfJson (← j.getObjVal? "pk"))))
   | _ => throw s!"unknown op kind {k}"
 
 def werrName : WErr → String
